@@ -7,14 +7,14 @@
    ([None] only when an allocator answer supplied with a [New] is not a free pool address).
    [c_ordered c = true] is the repaired write discipline: writes and deletes of one session take effect in issue
    order.  [c_ordered c = false] is what the code does today (an asynchronous Put applies whenever it completes). *)
-From OV Require Import Common.Base C12.Model C12.Proofs C12.OWModel C12.OWProofs.
+From OV Require Import Common.Base C12.Model C12.Proofs C12.Window C12.OWModel C12.OWProofs.
 Open Scope N_scope.
 
 (* Released sessions stay gone: for every history, every completion order of the checkpoint writes and every crash
    point (a crash may occur anywhere in [ops], and one more is appended here), a session released at any earlier
    point is neither in the in-memory index nor in the store — before and after the restart. *)
 Theorem C12_released_stay_gone :
-  forall c ops s, c_ordered c = true -> run c init ops = Some s ->
+  forall c ops s, c_ordered c = true -> c_delretry c = true -> run c init ops = Some s ->
   (forall i, In i (released s) -> aget i (live s) = None /\ aget i (store s) = None) /\
   (forall p f now i, In i (released s) ->
      let s' := fst (do_crash c s p f now) in
@@ -47,6 +47,91 @@ Proof.
   eexists. split; [vm_compute; reflexivity|]. cbn. repeat split; auto; discriminate.
 Qed.
 Print Assumptions C12_released_stay_gone_refuted.
+
+(* A release whose checkpoint Delete fails.  [c_delretry c = true] (hypothesis of the theorem above) is the repaired
+   behaviour: the Delete is repeated until it succeeds.  /repo HEAD only logs the Store error
+   (deleteSessionCheckpoint): the image stays in the store and the released session is restored after a restart. *)
+Definition head_cfg (p : proto) : cfg :=
+  {| c_proto := p; c_ordered := true; c_reserve := true; c_delretry := false; c_n4 := 4; c_n6 := 4; c_npd := 2 |}.
+Theorem C12_released_stay_gone_delete_fault_refuted :
+  exists p ops s, run (head_cfg p) init ops = Some s /\ In 0 (released s) /\ aget 0 (live s) <> None /\
+                  aget 0 (store s) <> None.
+Proof.
+  exists PPPoE, [New (est 0) (Some 0) None None; Cks 0; RelF 0; Crash true None 0%Z].
+  eexists. split; [vm_compute; reflexivity|]. cbn. repeat split; auto; discriminate.
+Qed.
+Print Assumptions C12_released_stay_gone_delete_fault_refuted.
+
+(* An ESTABLISHED session has its image in the store.  [completed s] is the history record of the checkpoint images
+   that took effect: (i, t) enters it exactly when the checkpoint call stamped t of session i is a synchronous
+   checkpoint ([C12_window_closed_by_sync]) or its asynchronous Put completes, effective and not failed by the fault
+   plan ([C12_window_closed_by_done]); it never shrinks.  For every history: if the image the session has in memory
+   (stamp t) is such a completed checkpoint, the store holds an image with the same identity, addresses, lease data
+   and stamp — at this and, until the session is checkpointed again or released, at every later stop point — and a
+   restart (any dataplane, any injected add failure) restores the session from it unless its lease has expired.
+   THE LOSS WINDOW is the complement, stated exactly by [C12_loss_window]: a session in the index is either never
+   checkpointed (between bring-up and the first checkpoint call), or its latest checkpoint has not taken effect
+   (Put pending, failed, or dropped by a stop), or it has its image.  [C12_loss_window_witness] shows both kinds of
+   loss are real: a stop inside the window loses the session. *)
+Theorem C12_established_has_image :
+  forall c ops s,
+  c_ordered c = true -> c_delretry c = true -> run c init ops = Some s ->
+  forall i r t, aget i (live s) = Some r -> s_stamp r = Some t -> In (i, t) (completed s) ->
+  (exists r0, aget i (store s) = Some r0 /\ same_core r0 r) /\
+  (forall (p : bool) f now, expired c now r = false ->
+     exists r', aget i (live (fst (do_crash c s p f now))) = Some r' /\ same_core r r').
+Proof. exact established_has_image. Qed.
+Print Assumptions C12_established_has_image.
+
+Theorem C12_window_closed_by_sync :
+  forall s i r, aget i (live s) = Some r ->
+  In (i, tick s) (completed (fst (do_cks s i))) /\
+  exists r', aget i (live (fst (do_cks s i))) = Some r' /\ s_stamp r' = Some (tick s).
+Proof. exact completed_by_sync. Qed.
+Print Assumptions C12_window_closed_by_sync.
+
+Theorem C12_window_closed_by_done :
+  forall c s t rp ts,
+  aget t (pend s) = Some rp -> aget t (poison s) = None -> effective c s (s_id rp) t = true ->
+  s_stamp rp = Some ts -> In (s_id rp, ts) (completed (fst (do_done c s t false))).
+Proof. exact completed_by_done. Qed.
+Print Assumptions C12_window_closed_by_done.
+
+Theorem C12_loss_window :
+  forall c ops s,
+  c_ordered c = true -> c_delretry c = true -> run c init ops = Some s ->
+  forall i r, aget i (live s) = Some r ->
+  s_stamp r = None \/
+  (exists t, s_stamp r = Some t /\ ~ In (i, t) (completed s)) \/
+  (exists r0, aget i (store s) = Some r0 /\ same_core r0 r).
+Proof.
+  intros c ops s O D R i r G. destruct (s_stamp r) as [t|] eqn:ST; auto. right.
+  assert (DEC : forall a b : N * N, {a = b} + {a <> b}) by (decide equality; apply N.eq_dec).
+  destruct (in_dec DEC (i, t) (completed s)) as [IN|NI].
+  - right. apply (established_has_image c ops s O D R i r t G ST IN).
+  - left. eauto.
+Qed.
+Print Assumptions C12_loss_window.
+
+Theorem C12_loss_window_witness :
+  (exists s, run (repaired IPoE 4 4 2) init [New (est 0) (Some 0) None None; Crash true None 0%Z] = Some s /\
+             aget 0 (live s) = None) /\
+  (exists s, run (repaired IPoE 4 4 2) init [New (est 0) (Some 0) None None; Ck 0; Crash true None 0%Z] = Some s /\
+             aget 0 (live s) = None) /\
+  (exists s, run (repaired IPoE 4 4 2) init
+               [New (est 0) (Some 0) None None; Ck 0; Poison 0 false; Done 0 false; Crash true None 0%Z] = Some s /\
+             aget 0 (live s) = None) /\
+  (exists s r, run (repaired IPoE 4 4 2) init
+               [New (est 0) (Some 0) None None; Ck 0; Done 0 false; Crash true None 0%Z] = Some s /\
+             aget 0 (live s) = Some r /\ s_v4 r = Some 0).
+Proof.
+  split; [|split; [|split]].
+  - eexists. split; [vm_compute; reflexivity|]. reflexivity.
+  - eexists. split; [vm_compute; reflexivity|]. reflexivity.
+  - eexists. split; [vm_compute; reflexivity|]. reflexivity.
+  - eexists. eexists. split; [vm_compute; reflexivity|]. split; reflexivity.
+Qed.
+Print Assumptions C12_loss_window_witness.
 
 (* Established sessions are restored: whatever state [s] the control plane stops in, every image [r] in the surviving
    store whose lease has not expired is back in the session index of the new incarnation with the same identity,
@@ -148,7 +233,7 @@ Print Assumptions C12_writer_nonvacuous.
    [pools_small]: the model's "static" addresses (index >= 1000) lie outside every pool. *)
 Theorem C12_reserved_before_alloc :
   forall c ops s,
-  c_ordered c = true -> reserves c -> pools_small c -> run c init ops = Some s ->
+  c_ordered c = true -> c_delretry c = true -> reserves c -> pools_small c -> run c init ops = Some s ->
   (forall k r ad, aget k (live s) = Some r -> In ad (addrs r) -> inpool c ad = true ->
                   aget ad (leases s) = Some k) /\
   (forall fam a, fam < 3 -> alloc_ok c (leases s) fam (Some a) = true ->
@@ -174,7 +259,7 @@ Print Assumptions C12_reserved_by_restore.
 (* today's PPPoE restore never re-reserves: after the restart the allocator may hand session 1 the address of the
    restored session 0 (write ordering repaired, so this is the second defect alone) *)
 Definition pp_no_reserve : cfg :=
-  {| c_proto := PPPoE; c_ordered := true; c_reserve := false; c_n4 := 4; c_n6 := 4; c_npd := 2 |}.
+  {| c_proto := PPPoE; c_ordered := true; c_reserve := false; c_delretry := true; c_n4 := 4; c_n6 := 4; c_npd := 2 |}.
 Theorem C12_reserved_before_alloc_refuted :
   exists ops s r0 r1, run pp_no_reserve init ops = Some s /\
     aget 0 (live s) = Some r0 /\ aget 1 (live s) = Some r1 /\ s_v4 r0 = Some 0 /\ s_v4 r1 = Some 0.
